@@ -85,8 +85,22 @@ def run(chk, scratch):
         chk.add_tlc("LockFile AsCoded, 3 contenders, simulation", rs)
         for b in rs.behaviours:
             by.setdefault(tuple(sorted(b["viol"])), []).append(b)
+    # sensitivity: a contender that "cleans up" when it gives up waiting removes the holder's lock (must violate MutualExclusion);
+    # its counterexample schedules (a holder, a polling contender that gives up, a later acquire) are replayed too: on the
+    # code as it is nothing is removed when a contender gives up
+    rg = vlib.run_tlc(scratch, [SPEC], "LockFile", "LockFile_giveup.cfg", workers=1, timeout=600)
+    if rg.error:
+        raise vlib.Inconclusive("TLC error on LockFile_giveup.cfg: %s" % rg.error)
+    chk.add_tlc("LockFile with a contender that removes the lock when it gives up waiting (must violate MutualExclusion)", rg)
+    if rg.violated != "MutualExclusion":
+        raise vlib.Inconclusive("sensitivity self-test failed: LockFile_giveup.cfg reported %s" % rg.violated)
+    giveups = []
+    for b in rg.behaviours:
+        b = dict(b, viol=[])      # nothing of it is expected from the code as it is
+        giveups.append(b)
+    chk.cov["give_up_schedules_replayed"] = len(giveups)
     per = 40 if thorough else 8
-    scen = []
+    scen = list(giveups)
     for k, v in sorted(by.items()):
         v.sort(key=lambda s: len(s["sched"]))
         scen += v[:3] + rnd.sample(v, min(per, len(v)))
